@@ -4,6 +4,7 @@ package vs
 
 import (
 	"fmt"
+	"os"
 	"sort"
 	"time"
 )
@@ -147,7 +148,7 @@ func Sleep(d time.Duration) {
 func Exit(code int) {
 	s := Cur
 	if s == nil {
-		panic(fmt.Sprintf("vs.Exit(%d) outside an execution", code))
+		os.Exit(code)
 	}
 	t := s.me()
 	t.pending = &Op{kind: opExit}
@@ -157,3 +158,37 @@ func Exit(code int) {
 	s.kill()
 	panic(killSentinel{})
 }
+
+// MapIterK / MapIterV / MapIterKV additionally return zero values that declare the loop
+// variables once per loop (Go <= 1.21 semantics of the repository's go.mod).
+func MapIterK[K comparable, V any](m map[K]V) (*MapIt[K, V], K) {
+	var k K
+	return MapIter(m), k
+}
+func MapIterV[K comparable, V any](m map[K]V) (*MapIt[K, V], V) {
+	var v V
+	return MapIter(m), v
+}
+func MapIterKV[K comparable, V any](m map[K]V) (*MapIt[K, V], K, V) {
+	var k K
+	var v V
+	return MapIter(m), k, v
+}
+
+// ChanIt implements `for v := range ch`.
+type ChanIt[T any] struct {
+	c *Chan[T]
+	v T
+}
+
+func ChanIter[T any](c *Chan[T]) *ChanIt[T] { return &ChanIt[T]{c: c} }
+func ChanIterV[T any](c *Chan[T]) (*ChanIt[T], T) {
+	var v T
+	return &ChanIt[T]{c: c}, v
+}
+func (it *ChanIt[T]) Next() bool {
+	v, ok := it.c.Recv2()
+	it.v = v
+	return ok
+}
+func (it *ChanIt[T]) V() T { return it.v }
